@@ -5,10 +5,24 @@ ROOT = os.path.dirname(os.path.dirname(os.path.abspath(__file__)))
 
 MC = "model_checking"; EX = "exploration"; FE = "fault_enumeration"
 # id: (level, technique, text, note, design_ref)
+GXT = "stateless deviation-bounded exhaustive exploration of the real implementation under a controlled scheduler (synctest bubble + gates + simulated broker answers)"
+PNOTE = "simkafka's reading of the Kafka protocol; interleavings only at gates/answers/application operations/ticks (not at every memory access); bounds 2-4 messages, 1-2 partitions, 1-2 brokers, <=B deviations from each scenario's default policy."
 CHECKS = {
- "C01": (MC, "stateless deviation-bounded exhaustive exploration of the real producer under a controlled scheduler (synctest bubble + gates + simulated broker answers)",
-         "Every execution of the producer scenarios with at most B deviations (fault answers, gate postponements, early input, early close) is run on the real implementation and judged by the exactly-one-outcome ledger; B iterated 0..2 quick, 0..3 thorough.",
-         "simkafka's reading of the produce protocol; interleavings only at gates/answers/app operations (not at every memory access); bounds 2-4 messages, 1-2 partitions, 1-2 brokers.", "§6 C01"),
+ "C01": (MC, GXT,
+         "Every execution of the producer scenarios (configurations: idempotent on/off, Retry.Max 0..2, flush settings, 1-2 partitions, 1-2 brokers, message formats v0/v1/v2, back-off, metadata faults, early close) with at most B deviations (fault answers, gate postponements, early input, early close) is run on the real implementation and judged by the exactly-one-outcome ledger; B iterated 0..3/4 quick, 0..4/5 thorough.",
+         PNOTE, "§6 C01"),
+ "C02": (MC, GXT,
+         "Same exhaustive exploration as C01, judged by the per-partition order oracle: offsets of successes increase with submission order, first copies in the simulated log are in submission order.",
+         PNOTE, "§6 C02"),
+ "C04": (MC, GXT,
+         "Same exhaustive exploration as C01, judged by: reported (partition, offset) addresses a log entry equal to the submitted message; everything on the wire/in the log is a submitted message in the partition the partitioner chose.",
+         PNOTE + " Payload/codec/version matrix still limited to small payloads in this revision.", "§6 C04"),
+ "C05": (MC, GXT,
+         "Idempotent scenarios against a sequence-enforcing simulated broker (pid/epoch/sequence rules of brokers >= 1.0, last-5-batches dedup), all executions with <= B deviations; oracle: no duplicate in any log, success => exactly once in log, sequence continuity per (partition, epoch), re-sent batch identical.",
+         PNOTE, "§6 C05"),
+ "C18": (MC, GXT,
+         "Producer scenarios with a chain of counting + header-appending (+ panicking) interceptors, all executions with <= B deviations; oracle: exactly one invocation per submitted message per interceptor in configuration order, none for internal markers, one application visible in the log.",
+         PNOTE + " Consumer half (slow-reader path) is added with the consumer rig.", "§6 C18"),
 }
 NOT_YET = {}
 props = [json.loads(l) for l in open(os.path.join(ROOT, "properties.jsonl"))]
